@@ -22,7 +22,7 @@ ASSUMPTIONS = [
     "pointer-valued members, struct padding and walltime fields are not state",
     "automatic cadence: rule 'before each step and once after the last one: if next <= t then next += interval, snapshot'",
 ]
-CLASSES = ["history/vanish", "history/appear", "history/shrink", "history/grow", "history/N0",
+CLASSES = ["history/t_equals_first", "history/vanish", "history/appear", "history/shrink", "history/grow", "history/N0",
            "history/switch", "history/variation", "history/reset"]
 
 SETTINGS = [("G", [1.0, 0.5, 39.47]), ("softening", [0.0, 1e-3]), ("ri_whfast.safe_mode", [0, 1]),
@@ -45,6 +45,8 @@ op = st.one_of(
     st.tuples(st.just("set"), st.integers(0, len(SETTINGS) - 1), st.integers(0, 2)),
     st.tuples(st.just("variation")),
     st.tuples(st.just("megno")),
+    st.tuples(st.just("rewind")),
+    st.tuples(st.just("integrate_back")),
     st.tuples(st.just("snap")),
     st.tuples(st.just("snap")),
     st.tuples(st.just("snap")),
@@ -71,6 +73,12 @@ def apply_cfg(sim, cfg):
     from .. import rb
     settle(sim)
     sim.integrator = cfg["integrator"]
+    if cfg["integrator"] == "saba":
+        # SABA shares WHFast's internal state and is documented to require Jacobi coordinates (with another
+        # setting it reports an error but still runs part 2 on stale arrays)
+        sim.ri_whfast.coordinates = "jacobi"
+    if cfg["integrator"] == "trace" and sim.dt < 0:
+        sim.dt = -sim.dt     # TRACE's encounter step does not support dt<0 (known finding recorded under C08)
     # WHFast/SABA/MERCURIUS/TRACE select their own gravity routine and leave it selected; the library warns
     # ("probably not correct") when another integrator then runs with it, so a user switching integrators
     # re-selects the gravity routine.
@@ -215,6 +223,14 @@ def run_history(case, ctx):
                     sim.init_megno(seed=3)
                     has_var = True
                     classes.add("variation")
+            elif kind == "rewind" and model:
+                settle(sim)
+                sim.t = model[0][0]          # e.g. reset the clock after a burn-in: same time as the first snapshot
+                classes.add("t_equals_first")
+            elif kind == "integrate_back" and model and sim.N > 0 and sim.integrator != "trace":
+                budget[0] = 0
+                sim.integrate(model[0][0])   # there and back: exactly the time of the first snapshot
+                classes.add("t_equals_first")
             elif kind == "snap":
                 m = rb.smap(sim)
                 t = sim.t
